@@ -129,6 +129,88 @@ def rule_paren_safe(ctx, rep):
         raise AnalysisError(f"only {n} fresh non-atomic expression returns found in refactoring codemods")
 
 
+def _cls_tail(e) -> str | None:
+    if isinstance(e, ast.Call):
+        e = e.func
+    if isinstance(e, (ast.Name, ast.Attribute)):
+        return unparse(e).split(".")[-1]
+    return None
+
+
+def class_table(ctx, fn: FuncInfo, e: ast.expr):
+    """`TABLE.get(type(x)[, d])` / `TABLE[type(x)]` with TABLE a module- or class-level dict literal of classes -> {key: value}."""
+    r = ctx.resolver(fn)
+    e = r.expand(e)
+    if isinstance(e, ast.NamedExpr):
+        e = e.value
+    tbl = None
+    if isinstance(e, ast.Call) and isinstance(e.func, ast.Attribute) and e.func.attr == "get" and e.args:
+        tbl = e.func.value
+    elif isinstance(e, ast.Subscript):
+        tbl = e.value
+    if tbl is None:
+        return None
+    val = None
+    if isinstance(tbl, ast.Name):
+        val = fn.module.constants.get(tbl.id)
+    elif isinstance(tbl, ast.Attribute) and isinstance(tbl.value, ast.Name) and tbl.value.id in ("self", "cls") and fn.cls is not None:
+        hit = ctx.prog.lookup_attr(fn.cls.qname, tbl.attr)
+        val = hit[1] if hit else None
+    if not isinstance(val, ast.Dict):
+        return None
+    out = {}
+    for k, v in zip(val.keys, val.values):
+        kt, vt = _cls_tail(k), _cls_tail(v)
+        if kt is None or vt is None:
+            return None
+        out[kt] = vt
+    return out
+
+
+def operator_mapping(ctx, fn: FuncInfo):
+    """The operator -> operator mapping a function implements, whichever way it is written: a `match` over operator classes, an
+    isinstance chain, or a class-keyed dict.  -> (table {OpClass: OpClass}, unknown operators are left alone?)"""
+    table: dict[str, str] = {}
+    default_keeps = None
+    for mt in [n for n in walk_no_nested(fn.node) if isinstance(n, ast.Match)]:
+        for case in mt.cases:
+            pat = case.pattern
+            val = None
+            for st in case.body:
+                if isinstance(st, (ast.Assign, ast.Return)):
+                    val = st.value
+            if isinstance(pat, ast.MatchClass):
+                k = unparse(pat.cls).split(".")[-1]
+                v = unparse(val.func).split(".")[-1] if isinstance(val, ast.Call) else unparse(val) if val is not None else None
+                table[k] = v
+            elif isinstance(pat, ast.MatchAs) and pat.pattern is None:
+                default_keeps = val is None or (isinstance(val, ast.Constant) and val.value is None) or (isinstance(val, ast.Attribute) and val.attr == "operator")
+    # isinstance chain:  if isinstance(op, cst.Equal): new = cst.NotEqual()
+    for st in walk_no_nested(fn.node):
+        if isinstance(st, ast.If) and isinstance(st.test, ast.Call) and call_name(st.test) == "isinstance" and len(st.test.args) == 2:
+            k = _cls_tail(st.test.args[1])
+            vals = [x.value for x in st.body if isinstance(x, (ast.Assign, ast.Return))]
+            if k and vals and isinstance(vals[-1], ast.Call):
+                table[k] = _cls_tail(vals[-1])
+    # class-keyed dict:  inverse = TABLE.get(type(op));  if inverse is None: return None;  ... inverse()
+    fa = ctx.flow(fn)
+    for n in walk_no_nested(fn.node):
+        if isinstance(n, (ast.Assign, ast.AnnAssign)) and n.value is not None:
+            t = class_table(ctx, fn, n.value)
+            if t is None:
+                continue
+            table.update(t)
+            tg = n.targets[0] if isinstance(n, ast.Assign) else n.target
+            if isinstance(tg, ast.Name):
+                # unknown operator -> the looked-up class is None: every use of it as a constructor must be under `is not None`,
+                # and the `is None` path must leave the comparison alone (return None / the original)
+                uses = [c for c in walk_no_nested(fn.node) if isinstance(c, ast.Call) and isinstance(c.func, ast.Name) and c.func.id == tg.id]
+                guarded = all(all((False, f"{tg.id} is None") in must or (True, tg.id) in must for must, _ in (fa.state_at(c).parts if fa.state_at(c) else [])) for c in uses)
+                subscript = isinstance(ctx.resolver(fn).expand(n.value), ast.Subscript)
+                default_keeps = bool(uses) and guarded and not subscript
+    return table, default_keeps
+
+
 def rule_invert_table(ctx, rep):
     rep.rule(
         "R-INVERT-TABLE",
@@ -141,25 +223,7 @@ def rule_invert_table(ctx, rep):
     inv = c.methods.get("_invert_comparisons")
     if inv is None:
         raise AnalysisError("InvertedBooleanCheckTransformer._invert_comparisons vanished")
-    matches = [n for n in walk_no_nested(inv.node) if isinstance(n, ast.Match)]
-    table = {}
-    default_keeps = None
-    for mt in matches:
-        for case in mt.cases:
-            pat = case.pattern
-            val = None
-            for st in case.body:
-                if isinstance(st, ast.Assign):
-                    val = st.value
-                elif isinstance(st, ast.Return):
-                    val = st.value
-            if isinstance(pat, ast.MatchClass):
-                k = unparse(pat.cls).split(".")[-1]
-                v = unparse(val.func).split(".")[-1] if isinstance(val, ast.Call) else unparse(val) if val is not None else None
-                table[k] = v
-            elif isinstance(pat, ast.MatchAs) and pat.pattern is None:
-                # default: must not rewrite (return None / keep operator / signal no-inversion)
-                default_keeps = val is None or (isinstance(val, ast.Constant) and val.value is None) or (isinstance(val, ast.Attribute) and val.attr == "operator")
+    table, default_keeps = operator_mapping(ctx, inv)
     wrong = {k: v for k, v in table.items() if NEGATION.get(k) != v}
     rep.check("R-INVERT-TABLE", inv.qname, inv.loc(), not wrong and len(table) >= 6, "negation-pairs",
               f"operator table pairs {wrong} — not the logical negation", table=table)
